@@ -16,6 +16,18 @@ VERUS_UNITS = {
 KANI_MODULES = {
     'detect': dict(src='src/detect.rs', file='detect.rs', modpath='detect'),
     'pipecheck': dict(src='src/pipecheck.rs', file='pipecheck.rs', modpath='pipecheck'),
+    'msgpack': dict(src='src/msgpack.rs', file='msgpack.rs', modpath='msgpack'),
+    'input': dict(src='src/input.rs', file='input.rs', modpath='input'),
+    'parser': dict(src='src/yaml/chunker/parser.rs', file='parser.rs', modpath='yaml::chunker::parser'),
+    'chunker': dict(src='src/yaml/chunker.rs', file='chunker.rs', modpath='yaml::chunker'),
+    'stream': dict(src='src/transcode/stream.rs', file='stream.rs', modpath='transcode::stream'),
+    'yaml': dict(src='src/yaml.rs', file='yaml.rs', modpath='yaml'),
+    'value': dict(src='src/transcode/value.rs', file='value.rs', modpath='transcode::value'),
+    'toml': dict(src='src/toml.rs', file='toml.rs', modpath='toml'),
+    'json': dict(src='src/json.rs', file='json.rs', modpath='json'),
+    'lib': dict(src='src/lib.rs', file='lib.rs', modpath=''),
+    'main': dict(src='src/main.rs', file='main.rs', modpath=''),
+    'encoding': dict(src='src/yaml/encoding.rs', file='encoding.rs', modpath='yaml::encoding'),
 }
 
 ATTR_INSERTS = {
@@ -45,23 +57,258 @@ HARNESSES = [
     H('U-PIPE', 'pipecheck', 'check_for_broken_pipe_is_identity_otherwise', 'complete', ['C16'],
       bounds='8 error kinds x Ok(any u32)', timeout=300, min_covers=1, fns=['pipecheck::check_for_broken_pipe'],
       assumes=['exit_for_broken_pipe stubbed by a diverging marker']),
+    # ---- U-MP-K: discharges the assumed (external_body) specs of the Verus unit on the real bodies ----
+    H('U-MP-K', 'msgpack', 'try_read_length_8_contract', 'complete', ['C18', 'C04', 'C02', 'C03'], bounds='every slice of length 0..=8',
+      fns=['msgpack::try_read_length_8', 'msgpack::try_read_length'], timeout=300, min_covers=2),
+    H('U-MP-K', 'msgpack', 'try_read_length_16_contract', 'complete', ['C18', 'C04', 'C02', 'C03'], bounds='every slice of length 0..=8',
+      fns=['msgpack::try_read_length_16', 'msgpack::try_read_length'], timeout=300, min_covers=2),
+    H('U-MP-K', 'msgpack', 'try_read_length_32_contract', 'complete', ['C18', 'C04', 'C02', 'C03'], bounds='every slice of length 0..=8',
+      fns=['msgpack::try_read_length_32', 'msgpack::try_read_length'], timeout=300, min_covers=2),
+    H('U-MP-G', 'msgpack', 'mp_gate_and_error_mapping', 'complete', ['C09', 'C10', 'C12'], bounds='all 256 first bytes, slice length 0..=2, 8 trial outcomes',
+      fns=['msgpack::input_matches'], timeout=300, min_covers=3,
+      assumes=['match_input_buffer / match_input_reader (the rmp_serde trial) replaced by the assumed rmp_serde contract: any decode::Error; '
+               'truncation yields Invalid{Marker,Data}Read(UnexpectedEof) without a source failure']),
+    # ---- U-CAP ----
+    H('U-CAP', 'input', 'cap_read_step', 'bounded-size', ['C09', 'C02', 'C04', 'C05', 'C12'], bounds='stream <= 4 B, caller buffer <= 3 B; any history',
+      fns=['input::CaptureReader::read', 'input::CaptureReader::captured_unread_size'], timeout=600, min_covers=3),
+    H('U-CAP', 'input', 'cap_read_step_big', 'bounded-size', ['C09', 'C02', 'C04', 'C05', 'C12'], tier='thorough', bounds='stream <= 6 B, caller buffer <= 4 B; any history',
+      fns=['input::CaptureReader::read'], timeout=1800, min_covers=3),
+    H('U-CAP', 'input', 'cap_rewind_step', 'bounded-size', ['C09', 'C02'], bounds='stream <= 4 B; any state', fns=['input::CaptureReader::rewind'], timeout=300),
+    H('U-CAP', 'input', 'cap_unread_size_never_underflows', 'bounded-size', ['C04', 'C09'], bounds='stream <= 4 B; any state',
+      fns=['input::CaptureReader::captured_unread_size', 'input::CaptureReader::captured'], timeout=300),
+    H('U-CAP', 'input', 'cap_capture_up_to_size_step', 'bounded-size', ['C09', 'C05', 'C12', 'C04'], bounds='stream <= 4 B, size <= 6; any state',
+      fns=['input::CaptureReader::capture_up_to_size'], timeout=900, min_covers=3,
+      assumes=['std::io::default_read_to_end stubbed by an executable statement of the documented Read::read_to_end contract']),
+    H('U-CAP', 'input', 'cap_capture_up_to_size_step_big', 'bounded-size', ['C09', 'C05', 'C12'], tier='thorough', bounds='stream <= 6 B, size <= 8; any state',
+      fns=['input::CaptureReader::capture_up_to_size'], timeout=2400, min_covers=3,
+      assumes=['std::io::default_read_to_end stubbed by its documented contract']),
+    H('U-CAP', 'input', 'cap_capture_to_end_step', 'bounded-size', ['C09', 'C12', 'C04'], bounds='stream <= 4 B; any state',
+      fns=['input::CaptureReader::capture_to_end'], timeout=900, min_covers=2,
+      assumes=['std::io::default_read_to_end stubbed by its documented contract']),
+    H('U-CAP', 'input', 'handle_borrow_mut_always_rewinds', 'bounded-size', ['C09', 'C02'], bounds='stream <= 4 B; any state',
+      fns=['input::Handle::borrow_mut', 'input::GuardedCaptureReader::rewind_and_borrow_mut', 'input::CaptureReader::is_source_eof'], timeout=300, min_covers=2),
+    H('U-CAP', 'input', 'handle_borrow_mut_slice_is_identity', 'complete', ['C09', 'C02'], bounds='slice <= 3 B (pointer identity)',
+      fns=['input::Handle::from_slice', 'input::Handle::borrow_mut', 'input::Input::from'], timeout=300, allow_unreachable_asserts=True),
+    H('U-CAP', 'input', 'fused_reader_contract', 'complete', ['C05', 'C02'], bounds='all 3-step inner result scripts, caller buffer <= 2 B',
+      fns=['input::FusedReader::read'], timeout=300, min_covers=2),
+    # ---- U-ENC ----
+    H('U-ENC-D', 'encoding', 'enc_detect_matches_yaml_spec', 'complete', ['C07', 'C02', 'C09'], bounds='every prefix of length 0..=8',
+      fns=['yaml::encoding::Encoding::detect'], timeout=300, min_covers=5),
+    H('U-ENC-16', 'encoding', 'utf16_next_step', 'complete', ['C07', 'C17', 'C04', 'C05'], bounds='every pending/next unit pair, both endiannesses, 0..=7 remaining bytes; any decoder state',
+      fns=['yaml::encoding::Utf16Decoder::next', 'yaml::encoding::Utf16Decoder::next_u16', 'yaml::encoding::Endianness::decode_u16'], timeout=600, min_covers=7,
+      assumes=['Utf16Decoder.pos < 2^64-16 bytes']),
+    H('U-ENC-16', 'encoding', 'utf16_source_error_propagates', 'bounded-size', ['C12', 'C07'], bounds='stream <= 6 B, failure at every offset',
+      fns=['yaml::encoding::Utf16Decoder::next', 'yaml::encoding::Utf16Decoder::next_u16'], timeout=300, min_covers=1, allow_unreachable_asserts=True),
+    H('U-ENC-32', 'encoding', 'utf32_next_step', 'complete', ['C07', 'C17', 'C04', 'C05'], bounds='every 32-bit unit value, both endiannesses, 0..=7 remaining bytes',
+      fns=['yaml::encoding::Utf32Decoder::next', 'yaml::encoding::Endianness::decode_u32'], timeout=300, min_covers=4,
+      assumes=['Utf32Decoder.pos < 2^64-16 bytes']),
+    H('U-ENC-32', 'encoding', 'utf32_source_error_propagates', 'bounded-size', ['C12', 'C07'], bounds='stream <= 6 B, failure at every offset',
+      fns=['yaml::encoding::Utf32Decoder::next'], timeout=300, min_covers=1),
+    H('U-ENC-16', 'encoding', 'endianness_decode_contract', 'complete', ['C07'], bounds='all 2^32 byte quadruples',
+      fns=['yaml::encoding::Endianness::decode_u16', 'yaml::encoding::Endianness::decode_u32'], timeout=300),
+    H('U-ENC-8', 'encoding', 'arraybuffer_ops_contract', 'complete', ['C04', 'C07'], bounds='every ArrayBuffer<4> state x {read, write, set, consume} x every argument <= 4 B',
+      fns=['yaml::encoding::ArrayBuffer::read', 'yaml::encoding::ArrayBuffer::write', 'yaml::encoding::ArrayBuffer::set', 'yaml::encoding::ArrayBuffer::consume',
+           'yaml::encoding::ArrayBuffer::unread', 'yaml::encoding::ArrayBuffer::is_empty'], timeout=300),
+    H('U-ENC-8', 'encoding', 'utf8_encoder_next_char_bom', 'complete', ['C07'], bounds='every pair of next source items, started or not',
+      fns=['yaml::encoding::Utf8Encoder::next_char'], timeout=300, min_covers=2),
+    H('U-ENC-8', 'encoding', 'utf8_encoder_read_step', 'bounded-size', ['C07', 'C04', 'C12', 'C02', 'C05'], bounds='caller buffer <= 5 B, <= 2 source characters per step, any remainder; any history',
+      fns=['yaml::encoding::Utf8Encoder::read', 'yaml::encoding::Utf8Encoder::next_char'], timeout=900, min_covers=3),
+    H('U-ENC-8', 'encoding', 'utf8_encoder_read_step_big', 'bounded-size', ['C07', 'C04', 'C12', 'C02'], tier='thorough', bounds='caller buffer <= 6 B, <= 3 source characters per step, any remainder',
+      fns=['yaml::encoding::Utf8Encoder::read'], timeout=1800, min_covers=3),
+    # ---- U-MP-G reader variant, U-MP-T, C18 depth wiring ----
+    H('U-MP-G', 'msgpack', 'mp_gate_reader_source_error_propagates', 'complete', ['C09', 'C12'], bounds='reader input: source fails or yields any one byte',
+      fns=['msgpack::input_matches', 'input::Ref::prefix'], timeout=900, min_covers=2,
+      assumes=['rmp_serde trial stubbed by its assumed contract', 'std::io::default_read_to_end stubbed by its documented contract']),
+    H('U-MP-T', 'msgpack', 'mp_transcode_slice_splits_in_order', 'bounded-size', ['C03', 'C04', 'C02'], bounds='slice input <= 4 B; every split the proved size contract allows',
+      fns=['msgpack::transcode (slice loop)'], timeout=600, min_covers=3,
+      assumes=['next_value_size replaced by the contract Verus proves for it in the same run (non-empty input: Err or Ok(n), 1 <= n <= len)',
+               'Output mocked; rmp_serde deserializers are constructed but never run']),
+    H('U-MP-T', 'msgpack', 'mp_slice_deserializers_get_depth_limit', 'bounded-size', ['C18'], bounds='slice input <= 2 B',
+      fns=['msgpack::transcode (slice loop)'], timeout=600, min_covers=1,
+      assumes=['rmp_serde::Deserializer::set_max_depth stubbed by a probe that records its argument', 'next_value_size replaced by its proved contract']),
+    H('U-MP', 'msgpack', 'mp_size_matches_exec_spec', 'bounded', ['C18'], tier='never', bounds='input <= 3 B, depth <= 2 (replay pair of the Verus unit; only run to look for a concrete failing input)',
+      fns=['msgpack::next_value_size'], timeout=900),
+    # ---- U-PRS / U-CHK ----
+    H('U-PRS', 'parser', 'read_handler_contract', 'bounded-size', ['C17', 'C12', 'C04'], bounds='libyaml buffer <= 4 B (+2 canary bytes); reader may lie about any length or fail',
+      fns=['yaml::chunker::parser::Parser::read_handler'], timeout=600, min_covers=4),
+    H('U-PRS', 'parser', 'read_handler_contract_big', 'bounded-size', ['C17', 'C12'], tier='thorough', bounds='libyaml buffer <= 8 B (+2 canary bytes)',
+      fns=['yaml::chunker::parser::Parser::read_handler'], timeout=1200, min_covers=4),
+    H('U-PRS', 'parser', 'read_handler_null_arguments', 'complete', ['C17'], bounds='each of the three pointer arguments null',
+      fns=['yaml::chunker::parser::Parser::read_handler'], timeout=300),
+    H('U-CHK', 'chunker', 'chunk_reader_read_step', 'bounded-size', ['C03', 'C05', 'C17', 'C04', 'C02', 'C12'], bounds='stream <= 5 B, caller buffer <= 3 B; any state',
+      fns=['yaml::chunker::ChunkReader::read'], timeout=600, min_covers=2),
+    H('U-CHK', 'chunker', 'chunk_reader_read_step_big', 'bounded-size', ['C03', 'C05', 'C17'], tier='thorough', bounds='stream <= 8 B, caller buffer <= 5 B; any state',
+      fns=['yaml::chunker::ChunkReader::read'], timeout=1200, min_covers=2),
+    H('U-CHK', 'chunker', 'chunk_reader_take_to_offset', 'bounded-size', ['C03', 'C05', 'C04'], bounds='stream <= 4 B; any state; any offset allowed by the libyaml-mark assumption',
+      fns=['yaml::chunker::ChunkReader::take_to_offset'], timeout=900, min_covers=1, assumes=['libyaml marks: start <= offset <= bytes delivered']),
+    H('U-CHK', 'chunker', 'chunk_reader_trim_to_offset', 'bounded-size', ['C03', 'C05', 'C04'], bounds='stream <= 4 B; any state',
+      fns=['yaml::chunker::ChunkReader::trim_to_offset'], timeout=900, min_covers=1, assumes=['libyaml marks: start <= offset <= bytes delivered']),
+    H('U-CHK', 'chunker', 'chunk_reader_cuts_partition_stream', 'bounded-size', ['C03'], tier='thorough', bounds='stream <= 4 B; two documents',
+      fns=['yaml::chunker::ChunkReader::take_to_offset', 'yaml::chunker::ChunkReader::trim_to_offset'], timeout=1800, min_covers=1,
+      assumes=['libyaml marks monotone']),
+    H('U-CHK', 'chunker', 'chunk_reader_overreporting_reader_panics_cleanly', 'bounded-size', ['C17'], bounds='stream <= 4 B, caller buffer <= 3 B; reader over-reports by 1..3',
+      fns=['yaml::chunker::ChunkReader::read'], timeout=600, expected_failures=[r'slice/index\.rs', r'slice_index'],
+      assumes=['expected outcome is the clean slice-index panic only; any pointer / bounds check failing elsewhere is a violation']),
+    # ---- U-TX / U-VAL ----
+    H('U-TX', 'stream', 'tx_scalar_forwarding_exact', 'complete', ['C01', 'C06', 'C11', 'C04'], bounds='all 17 scalar visitor methods x every value of every type x serializer ok/fails',
+      fns=['transcode::stream::Visitor::visit_*', 'transcode::stream::Visitor::forward_scalar', 'transcode::stream::State::take_parent', 'transcode::stream::State::capture_error'],
+      timeout=600, min_covers=3),
+    H('U-TX', 'stream', 'tx_state_capture_contracts', 'complete', ['C11', 'C04'], bounds='all source/error combinations',
+      fns=['transcode::stream::State::capture_error', 'transcode::stream::State::capture_child_error', 'transcode::stream::State::into_error', 'transcode::stream::State::error_source'], timeout=300),
+    H('U-TX', 'stream', 'tx_serialize_with_seed_contract', 'complete', ['C11', 'C12', 'C04'], bounds='4 serializer-step behaviours x leaf deserializer ok/fails x leaf serializer ok/fails',
+      fns=['transcode::stream::Forwarder::serialize_with_seed', 'transcode::stream::Forwarder::serialize'], timeout=300, min_covers=5),
+    H('U-TX', 'stream', 'tx_error_attribution_depth1', 'bounded', ['C11', 'C12', 'C01', 'C06', 'C04'], bounds='mock nesting depth 1, <= 2 elements / 1 map entry, failure possible at every step of either side',
+      fns=['transcode::stream::transcode', 'transcode::stream::Visitor::visit_seq', 'transcode::stream::Visitor::visit_map', 'transcode::stream::SeqSeed/KeySeed/ValueSeed::deserialize',
+           'transcode::stream::Forwarder::serialize', 'transcode::stream::Forwarder::serialize_with_seed'], timeout=900, min_covers=3,
+      assumes=['serde protocol: one visit_* per deserialize_any; Serialize::serialize called at most once per element']),
+    H('U-TX', 'stream', 'tx_error_attribution_depth2', 'bounded', ['C11', 'C12', 'C01'], tier='thorough', bounds='mock nesting depth 2 (collections in element, key and value position)',
+      fns=['transcode::stream::transcode'], timeout=3600, min_covers=3),
+    H('U-VAL', 'value', 'value_scalar_types_and_bits_kept', 'complete', ['C01', 'C06'], bounds='21 visit forms x every 128-bit payload',
+      fns=['transcode::value::Value::deserialize', 'transcode::value::Value::serialize'], timeout=900, min_covers=4),
+    H('U-VAL', 'value', 'value_event_fidelity_depth1', 'bounded', ['C01', 'C06'], bounds='mock nesting depth 1, <= 2 elements / 1 map entry',
+      fns=['transcode::value::Value::deserialize', 'transcode::value::Value::serialize'], timeout=900, min_covers=2),
+    H('U-VAL', 'value', 'value_event_fidelity_depth2', 'bounded', ['C01'], tier='thorough', bounds='mock nesting depth 2',
+      fns=['transcode::value::Value::deserialize', 'transcode::value::Value::serialize'], timeout=3600, min_covers=2),
+    # ---- U-YML / U-TOML / U-JSN / U-LIB / U-EXT ----
+    H('U-YML', 'yaml', 'yaml_slice_fast_path_requires_utf8', 'complete', ['C07', 'C02'], bounds='every slice of length 0..=4 (the detector reads 4 bytes)',
+      fns=['yaml::transcode'], timeout=600, min_covers=2,
+      assumes=['serde_yaml::Deserializer::from_str stubbed by its precondition-contract: the text is the UTF-8 encoding of the stream (Encoding::detect == Utf8)',
+               'transcode_reader stubbed (its parts are under contract in U-ENC / U-CHK)']),
+    H('U-YML', 'yaml', 'yaml_slice_fast_path_taken_for_utf8', 'complete', ['C07'], bounds='one concrete UTF-8 text (vacuity guard for the harness above)',
+      fns=['yaml::transcode'], timeout=600, min_covers=1, allow_unreachable_asserts=True),
+    H('U-YML', 'yaml', 'yaml_reader_input_uses_reencoder', 'complete', ['C07', 'C02'], bounds='one concrete reader input', fns=['yaml::transcode'], timeout=600),
+    H('U-TOML', 'toml', 'toml_ensure_one_use_contract', 'complete', ['C08'], bounds='both states', fns=['toml::Output::ensure_one_use'], timeout=300),
+    H('U-TOML', 'toml', 'toml_second_use_refused_before_any_work', 'complete', ['C08'], bounds='any history with used == true; 4 deserializer behaviours',
+      fns=['toml::Output::transcode_from', 'toml::Output::ensure_one_use'], timeout=900),
+    H('U-TOML', 'toml', 'toml_non_table_root_refused_without_write', 'complete', ['C08', 'C11'], bounds='boolean / integer / float roots with any payload; failing deserializer',
+      fns=['toml::Output::transcode_from', 'toml::Output::output_value'], timeout=900, min_covers=1,
+      assumes=['runs the real toml::Value::deserialize on scalar events']),
+    H('U-TOML', 'toml', 'toml_output_value_rejects_non_tables', 'complete', ['C08'], bounds='Boolean, Integer, Float (any payload), Datetime, Array roots',
+      fns=['toml::Output::output_value'], timeout=900),
+    H('U-TOML', 'toml', 'toml_table_root_written_once', 'complete', ['C08', 'C12'], bounds='serializer Ok(1..=3 byte document) / Err; writer ok / failing',
+      fns=['toml::Output::output_value'], timeout=600, min_covers=3,
+      assumes=['toml::to_string_pretty stubbed by its assumed contract (Ok(document) or Err)', 'std::hash::RandomState::new stubbed by a fixed seed (table is empty, never hashed)']),
+    H('U-JSN', 'json', 'json_input_matches_error_mapping', 'complete', ['C09', 'C12'], bounds='every slice <= 3 B x 3 trial outcomes',
+      fns=['json::input_matches'], timeout=900, min_covers=3,
+      assumes=['serde_json trial stubbed by its assumed contract; serde_json::Error::is_io stubbed by the ghost category of the error the stub produced']),
+    H('U-LIB', 'lib', 'translator_flush_forwards_to_writer', 'complete', ['C12'], bounds='4 output formats x 4 writer flush results',
+      fns=['Translator::flush', 'Dispatcher::flush', 'json::Output::flush', 'msgpack::Output::flush', 'toml::Output::flush', 'yaml::Output::flush'], timeout=300, min_covers=2),
+    H('U-EXT', 'main', 'extension_table', 'complete', ['C14'], bounds='every extension byte string of length 0..=7, present or absent',
+      fns=['main::InputPath::extension_format'], timeout=900, min_covers=3,
+      assumes=['std::path::Path::extension stubbed by its std contract (returns None or the last extension)']),
+    H('U-EXT', 'main', 'extension_of_stdin_is_none', 'complete', ['C14'], bounds='-', fns=['main::InputPath::extension_format'], timeout=300),
+    H('U-EXT', 'main', 'format_names_table', 'complete', ['C14'], bounds='every string <= 3 B plus the four long names', fns=['main::try_parse_format'], timeout=600),
 ]
 
 PROPERTIES = {
+    'C01': dict(
+        explanation='xt owns the middle link parser -> serde events -> transcoder -> serializer calls. Contract: the serializer receives exactly the event '
+                    'sequence the deserializer produced. Scalars (17 visit methods of the streaming transcoder, 21 visit forms of transcode::Value): same type, '
+                    'bit-identical value, for every value (complete). Sequences/maps: serialize_seq/map(size_hint), then elements / key-value alternation in '
+                    'deserializer order, then end(), compared event by event on the fly (bounded mock depth).',
+        assumptions=['every parser and writer crate is faithful (serde_json, serde_yaml, toml, rmp-serde: assumed)',
+                     'JSON float parsing without serde_json float_roundtrip is known NOT to be exact (one-ULP loss on ~10% of 17-digit floats): xt contains no float-parsing code, so no contract on xt code can express it',
+                     'TOML table reordering and preserve_order are a dependency feature'],
+        not_covered=['parsers and writers', 'JSON float ULP loss (known, outside this technique)', 'nesting deeper than the mock bound (argued by the per-function contracts, checked to depth 2 in the thorough tier)']),
+    'C02': dict(
+        explanation='Schedule transparency of every reader xt owns (CaptureReader, FusedReader chain, Utf16/Utf32 decoders, Utf8Encoder, ChunkReader): the bytes '
+                    'handed to the consumer are a function of the bytes delivered by the source for every pattern of short reads (step-inductive contracts). '
+                    'MessagePack slice vs reader: Verus proves next_value_size == mp_value and rmp_value => mp_value, so the slice cut is where rmp_serde stops. '
+                    'YAML slice fast path only for UTF-8-encoded streams (repaired defect F2).',
+        assumptions=['BufReader and the parsers\' own readers honour the Read contract', 'rmp_value: assumed spec of rmp_serde',
+                     'serde_yaml::Deserializer::from_str precondition-contract'],
+        not_covered=['JSON StreamDeserializer vs end() loop (`truefalse`)', 'serde_yaml void document for comment-only files', 'toml::Value Serialize- vs Deserialize-path on repeated keys',
+                     'prefix-comparability of partial outputs (all four are differences between two entry points of third-party crates; known from the property text, outside this technique)']),
+    'C03': dict(
+        explanation='Document cutting is an ordered partition: msgpack::transcode hands the output rest[..n] with n the exact size of the first value (Verus, unbounded; '
+                    'loop wiring by Kani with the proved contract substituted), consecutive, non-empty, covering the input; ChunkReader::take_to_offset / trim_to_offset '
+                    'return / keep exactly stream[start..o] / stream[o..delivered].',
+        assumptions=['libyaml marks are monotone and within the bytes delivered', 'Chunker::next emits every chunk exactly once (calls libyaml; not under contract)'],
+        not_covered=['writeln!/--- framing in json::Output / yaml::Output (real serializers are out of CBMC\'s reach; pinned by the golden-file tests)', 'Translator keeping one output', 'the CLI loop']),
+    'C04': dict(
+        explanation='Panic-freedom / termination of every function under contract: Verus checks bounds, overflow and decreases for the size calculator (all inputs); every Kani '
+                    'harness checks all panics, unwraps, index, overflow and pointer obligations of the real code under its stated precondition, incl. stream.rs '
+                    'into_error().unwrap() and take_parent().expect() under adversarial mocks, CaptureReader index arithmetic, ArrayBuffer/Utf8Encoder slicing, decoder arithmetic.',
+        assumptions=['all dependency code is total', 'libyaml marks valid (String::from_utf8(chunk).unwrap() in Chunker::next rests on it and is NOT verified)'],
+        not_covered=['stack depth', 'hangs inside parsers (e.g. while de.end().is_err())', 'alias bombs / huge declared lengths inside rmp/serde', 'Chunker::next, Parser::new/next_event, main()']),
+    'C05': dict(
+        explanation='Footprint contracts on the buffers xt owns: CaptureReader::read consults the source at most once and never for more than fits the caller buffer (no read-ahead); '
+                    'capture_up_to_size never captures beyond max(len, size); FusedReader drops the captured prefix at its first EOF; ChunkReader holds exactly stream[start..delivered] '
+                    'and performs one inner read per read; decoders consume exactly one character\'s units; Utf8Encoder holds back at most 3 bytes.',
+        assumptions=['BufReader 8 KiB read-ahead', 'libyaml look-ahead and Chunker::next one-document deferral (so the k+2 constant is not proved)'],
+        not_covered=['heap measurements', 'first-document-after-one-read for json/msgpack transcode loops (needs the real parsers)']),
+    'C06': dict(
+        explanation='Derived from the C01 contracts: the transcoder and transcode::Value are the identity on event sequences (same harnesses as C01), so writer_B . T . parser_B is a fixed point '
+                    'whenever parser_B(writer_B(v)) = v for the crate pair (assumed). Claimed so that a transcoder mutant is reported under C06 as well.',
+        assumptions=['reader(writer(v)) = v for each third-party crate pair', 'JSON float caveat as C01'],
+        not_covered=['everything about the crates\' own round trips']),
+    'C07': dict(
+        explanation='Encoding::detect == YAML 1.2.2 section 5.2 table for every prefix (complete); Utf16Decoder::next / Utf32Decoder::next step contracts from arbitrary state over every '
+                    'code unit value (complete): Ok(c) iff well-formed, c the exact scalar value, exactly those units consumed; every ill-formed class => Err, never a fabricated '
+                    'character; Utf8Encoder::read step contract: bytes out ++ remainder == remainder ++ utf8(chars), BOM skipped exactly once; yaml::transcode takes the '
+                    'serde_yaml fast path only for UTF-8-encoded slices (repaired defect F2).',
+        assumptions=['libyaml / serde_yaml treat the re-encoded bytes like native UTF-8 input (they receive identical bytes)', 'decoder byte positions < 2^64-16'],
+        not_covered=['Encoder::from_reader peek-and-chain (io::copy under CBMC)', 'detection through yaml::input_matches (calls libyaml)']),
+    'C08': dict(
+        explanation='TOML output state machine, view = (used, writer calls): ensure_one_use; second use refused from any history before the deserializer is touched and with zero writer calls; '
+                    'non-table roots (every variant, any payload) refused with zero writes; the use mark is set before deserialization; table root => exactly one write_all of exactly the '
+                    'serializer\'s document, zero writes when the serializer refuses, writer failure surfaces.',
+        assumptions=['toml::Value::{deserialize, try_from} reject null/unit and out-of-range integers', 'toml::to_string_pretty emits one valid document that reads back as the value'],
+        not_covered=['validity of the emitted document (toml crate)', 'transcode_value path beyond ensure_one_use (toml::Value::try_from)']),
+    'C09': dict(
+        explanation='Rewindable handle: representation invariant captured == stream[..delivered] preserved by every CaptureReader operation from any valid state against a source that '
+                    'short-reads / fails / EOFs at will (unbounded history); borrow_mut always rewinds; detect_format returns the first Ok(true) in order MessagePack, JSON, YAML, TOML, '
+                    'None iff all Ok(false), Err iff a trial failed first (complete over all outcomes), each trial sees the stream from byte 0; error mapping of the MessagePack and JSON '
+                    'trials: Err only if the source itself failed (repaired defect F3); MessagePack first-byte gate over all 256 bytes.',
+        assumptions=['what each trial parser accepts (assumed)', 'std::io::default_read_to_end stubbed by its documented contract in capture_* harnesses',
+                     'rmp_serde / serde_json error categories as stated in the stubs'],
+        not_covered=['same-format detection from slice and reader for JSON/YAML/TOML (two parser entry points each)', 'yaml::input_matches / toml::input_matches result mapping (call libyaml / toml)',
+                     'Input::from(handle) / Ref::prefix / Cow::try_from composition through Box<dyn Read> (out of CBMC\'s reach at useful sizes; their parts are under contract)']),
+    'C10': dict(
+        explanation='Gate/order skeleton only: MessagePack trial runs iff byte 0 is a map/array marker (all 256 bytes), so JSON, YAML (---) and ASCII-first TOML output never enter it, and every '
+                    'map/array header does; fixed trial order. Thinnest claim of the set.',
+        assumptions=['what each writer emits first', 'JSON/YAML trials reject the other formats\' output'],
+        not_covered=['everything about serde_json / serde_yaml / toml accepting or rejecting text', 'the TOML exceptions in the statement', 'yaml::input_matches collection-only rule (calls libyaml)']),
+    'C11': dict(
+        explanation='Error attribution of the streaming transcoder against adversarial mocks with ghost own/synthetic tags and a first-failure record: deserializer failed first => Error::De(own error); '
+                    'serializer failed first at any position (scalar, serialize_seq/map, before / inside / after an element, key, value, end) => Error::Ser(that own error); a synthetic '
+                    '"translation failed" error is never the reported cause (repaired defect F1). Per-function contracts (serialize_with_seed, capture_*) from arbitrary states carry it to any depth.',
+        assumptions=['parser error texts carry positions; Display of Error::Ser is "{de_err}: {ser_err}" (Display impls not under contract)'],
+        not_covered=['message texts', 'TOML target errors produced inside toml::Value::deserialize', 'mock depth > 2']),
+    'C12': dict(
+        explanation='Fault propagation through xt-owned code: reader faults (CaptureReader, capture_*, decoders, ChunkReader, libyaml read callback) surface as Err with the invariant intact and no '
+                    'byte lost or invented; detection does not swallow faults (MessagePack/JSON mapping, detect_format); writer faults travel as serializer errors (C11) and through '
+                    'TOML write_all; Translator::flush returns the writer\'s result; what the serializer accepted is a prefix of what the deserializer produced.',
+        assumptions=['serializer crates write a prefix of the fault-free output and handle short writes (inside the crates / write_all)'],
+        not_covered=['bytes accepted by a failing writer are a prefix of the fault-free output (serializer crates)', 'Parser::next_event re-surfacing the stashed error (calls libyaml)',
+                     'complete documents delivered before a reader fault (needs the parsers)']),
+    'C14': dict(
+        explanation='Extension table only: extension_format == table(ascii_lowercase(ext)) for every extension byte string of length 0..=7 that Path::extension may return; Stdin => None; '
+                    'format names table of try_parse_format.',
+        assumptions=['std::path::Path::extension returns the last extension (stubbed by its std contract)'],
+        not_covered=['precedence -f > extension > detection (inside main())', 'stdin-once', 'mmap / FIFO / stdin agreement with the library']),
     'C16': dict(
         explanation='Contract on the stdout wrapper pipecheck::Writer: every Write method forwards to the same inner method once; '
                     'a BrokenPipe result diverts to exit_for_broken_pipe and never returns; every other result is returned unchanged.',
         assumptions=['raise(SIGPIPE) with SIG_DFL terminates the process silently (libc/kernel; not modelled)',
                      'main() places the wrapper outside the BufWriter and maps other write errors to exit status 1 (main() is not under contract)'],
         not_covered=['signal delivery', 'wrapper placement in main()', 'exit status 1 path in main()']),
+    'C17': dict(
+        explanation='Unsafe code xt wrote that can be isolated: Parser::read_handler with a reader that returns any Ok(n) (even n > buffer) or Err: no write beyond buffer_size (canary bytes), '
+                    'success => size_read <= buffer_size and destination == what the reader produced, failure => error stashed and destination untouched, null arguments refused; '
+                    'ChunkReader::read with an over-reporting reader: only the clean slice-index panic; both from_u32_unchecked sites receive Unicode scalar values on every path.',
+        assumptions=['libyaml passes a valid buffer of buffer_size bytes and a valid size_read pointer'],
+        not_covered=['Parser::new aliasing argument', 'Drop order', 'Event init/delete pairing', 'early drops, leaks', 'all of unsafe-libyaml']),
     'C18': dict(
         explanation='Verus proves, for all byte strings and all depth limits, that the real next_value_size/total_seq_size/total_map_size '
                     '(and rmp::Marker::from_u8) compute exactly mp_value: Ok(n) iff the first value is complete, well-formed and nested at most d deep. '
                     'Lemmas: monotone in d; every shape of k collections (arrays, maps via value, maps via key) around a scalar is accepted iff k+1 <= d; '
-                    'with DEPTH_LIMIT extracted from the source: 1023 accepted, 1024 rejected; rmp_value (assumed spec of rmp_serde) implies mp_value.',
+                    'with DEPTH_LIMIT extracted from the source: 1023 accepted, 1024 rejected; rmp_value (assumed spec of rmp_serde) implies mp_value. '
+                    'Kani: the length readers assumed by Verus are proved on their real bodies; every slice-path deserializer gets set_max_depth(DEPTH_LIMIT).',
         assumptions=['rmp_value is a hand transcription of rmp-serde 1.1.2 decode.rs (depth_count! on arrays, maps and ext); not machine-checked against the crate',
                      'JSON/YAML/TOML nesting limits are library defaults (not under contract)', 'process stack survival is not modelled'],
-        not_covered=['JSON, YAML and TOML depth limits', 'stack safety of the real binary', 'reader-mode verdict is rmp_serde\'s own (assumed spec)']),
+        not_covered=['JSON, YAML and TOML depth limits', 'stack safety of the real binary', 'reader-mode verdict is rmp_serde\'s own (assumed spec)',
+                     'set_max_depth on the reader-path and detection deserializers (constructions that cannot be driven without running rmp_serde)']),
 }
 
 
@@ -73,6 +320,8 @@ def full_name(h):
 def kani_harnesses_for(pid, tier):
     out = []
     for h in HARNESSES:
+        if h['tier'] == 'never':
+            continue
         if pid in h['props'] and (tier == 'thorough' or h['tier'] == 'quick'):
             out.append(h)
     return out
